@@ -456,6 +456,38 @@ def r2_r3(ctx):
     ctx.ob("C01.R3", "reader repeat count is tmpl number under MBT_MULTIPLE", len(multi_r) == 1, DES)
 
 
+def flat_ops(repo, f, opname, recvs, chain=None, depth=0):
+    """(call, function, [(call site, caller), ..]) for every <recv>.<opname>(<spec>, ..) in the straight-line reading
+    order of f; helpers (methods of the same class / same-module functions) that are handed the receiver are
+    inlined at the call site, the receiver followed under the helper's parameter name."""
+    chain = chain or []
+    out = []
+    for c in sorted(calls(f.node), key=lambda c: (c.lineno, c.col_offset)):
+        if isinstance(c.func, ast.Attribute) and c.func.attr == opname and ap(c.func.value) in recvs \
+                and c.args and spec_symbol(c.args[0]):
+            out.append((c, f, chain))
+            continue
+        if depth >= 3:
+            continue
+        passed = [i for i, a in enumerate(c.args) if ap(a) in recvs]
+        passed_kw = [k.arg for k in c.keywords if k.arg and ap(k.value) in recvs]
+        if not passed and not passed_kw:
+            continue
+        tgt = None
+        if isinstance(c.func, ast.Attribute) and isinstance(c.func.value, ast.Name) and f.cls is not None and \
+                c.func.value.id in ("self", "cls", f.cls.name):
+            tgt = repo.lookup_method(f.cls, c.func.attr)
+        elif isinstance(c.func, ast.Name):
+            cands = [g for g in repo.funcs.get(c.func.id, []) if g.module is f.module and g.cls is None and g.parent_fn is None]
+            tgt = cands[0] if len(cands) == 1 else None
+        if tgt is None or any(tgt is fn for _, fn in chain) or tgt is f:
+            continue
+        ps = [a.arg for a in tgt.node.args.args if a.arg not in ("self", "cls")]
+        names = {ps[i] for i in passed if i < len(ps)} | set(passed_kw)
+        out.extend(flat_ops(repo, tgt, opname, names, chain + [(c, f)], depth + 1))
+    return out
+
+
 def _reader_repeat_counts(repo, des_fns):
     """{block type name: (expression that builds the reader's repeat count under that block type, function)}:
     the `for .. in range(<count>)` loop of the body parser, its count followed through locals, helpers and constant
@@ -504,8 +536,13 @@ def r4(ctx):
         return out
     w_ctors = ctors(sfs, "BufferWriter")
     # header writer: the one (in serialize) that receives the flags byte; body writer: the one handed to _serialize_block
-    hdr_w = [t for t in w_ctors if t[0] is sf and any(ap(c.func) == f"{t[1]}.write" and len(c.args) > 1 and
-                                                      "send_flags" in src(c.args[1]) for c in calls(sf.node))]
+    def flat_seq(f, opname, recvs):
+        return [(c, fn, any(has_path_fact(site, "has_acks", True, sfn.node) for site, sfn in chain + [(c, fn)]))
+                for c, fn, chain in flat_ops(repo, f, opname, recvs)]
+
+    def flags_writer(t):
+        return any(len(c.args) > 1 and "send_flags" in src(c.args[1]) for c, _, _ in flat_seq(sf, "write", {t[1]}))
+    hdr_w = [t for t in w_ctors if t[0] is sf and flags_writer(t)]
     body_w = [t for t in w_ctors if any(call_attr(c) == "_serialize_block" and c.args and ap(c.args[0]) == t[1]
                                         for c in calls(t[0].node))]
     r_hdr = ctors([hf], "BufferReader")
@@ -526,15 +563,14 @@ def r4(ctx):
             if isinstance(c.func, ast.Attribute) and ap(c.func.value) in recvs and c.args and spec_symbol(c.args[0]):
                 out.append(c)
         return out
-    w_seq = seq(sf, "write", {w_recv})
-    r_seq = seq(hf, "read", r_recvs)
-    # header part of writer: writes before the body; trailer: writes mentioning acks
-    def mentions_acks(c, f):
-        return has_path_fact(c, "has_acks", True, f.node)
-    w_hdr = [c for c in w_seq if not mentions_acks(c, sf)]
-    w_ack = [c for c in w_seq if mentions_acks(c, sf)]
-    r_ack = [c for c in r_seq if mentions_acks(c, hf)]
-    r_hdrs = [c for c in r_seq if c not in r_ack]
+    w_flat = flat_seq(sf, "write", {w_recv})
+    r_flat = flat_seq(hf, "read", r_recvs)
+    fn_of = {id(c): f for c, f, _ in w_flat + r_flat}
+    # header part of writer: writes before the body; trailer: writes under the has_acks guard
+    w_hdr = [c for c, _, a in w_flat if not a]
+    w_ack = [c for c, _, a in w_flat if a]
+    r_ack = [c for c, _, a in r_flat if a]
+    r_hdrs = [c for c, _, a in r_flat if not a]
     ws = [spec_symbol(c.args[0]) for c in w_hdr]
     rs = [spec_symbol(c.args[0]) for c in r_hdrs]
     ctx.ob("C01.R4", "header spec sequence equal", ws == rs and len(ws) >= 3, sf.where, f"writer {ws} reader {rs}")
@@ -567,7 +603,7 @@ def r4(ctx):
         ctx.ob("C01.R4", "ack element spec equal", es_w == es_r, ctx.w(sf, w_elem[0]), f"{es_w} vs {es_r}")
         ctx.ob("C01.R4", "ack count spec equal", spec_symbol(w_cnt[0].args[0]) == spec_symbol(r_cnt[0].args[0]),
                ctx.w(sf, w_cnt[0]))
-        ctx.ob("C01.R4", "ack count written after the elements", w_cnt[0].lineno > w_elem[0].lineno, ctx.w(sf, w_cnt[0]),
+        ctx.ob("C01.R4", "ack count written after the elements", w_ack.index(w_cnt[0]) > w_ack.index(w_elem[0]), ctx.w(sf, w_cnt[0]),
                "reader takes the count from the last byte")
         cntarg = w_cnt[0].args[1] if len(w_cnt[0].args) > 1 else None
         ctx.ob("C01.R4", "ack count value is len(msg.acks)", isinstance(cntarg, ast.Call) and ap(cntarg.func) == "len"
@@ -592,7 +628,7 @@ def r4(ctx):
                         and not isinstance(x, (ast.If, ast.For, ast.While, ast.With, ast.Try, ast.FunctionDef)):
                     region.append(x)
             seen = set()
-            for st in region + [a for a in _anc(elem_call) if isinstance(a, ast.For)]:
+            for st in region + ([a for a in _anc(elem_call) if isinstance(a, ast.For)] if elem_call is not None else []):
                 nodes = [st.iter] if isinstance(st, ast.For) else list(walk(st))
                 if isinstance(st, ast.For):
                     nodes = list(walk(st.iter))
@@ -611,8 +647,14 @@ def r4(ctx):
                             and isinstance(x.slice.step, ast.UnaryOp) and isinstance(x.slice.step.op, ast.USub):
                         n += 1
             return n
-        rev_w = reversals(sf, w_elem[0])
-        rev_r = reversals(hf, r_elem[0])
+        def total_reversals(top, elem):
+            inner = fn_of[id(elem)]
+            n = reversals(inner, elem)
+            if inner is not top:
+                n += reversals(top, None)
+            return n
+        rev_w = total_reversals(sf, w_elem[0])
+        rev_r = total_reversals(hf, r_elem[0])
         ctx.ob("C01.R4", "ack order reversals are even in total", (rev_w + rev_r) % 2 == 0, ctx.w(sf, w_elem[0]),
                f"writer reverses {rev_w}x, reader {rev_r}x: decoded ack order would be reversed")
         # result stored to msg.acks from the collected list
@@ -1101,11 +1143,18 @@ def r8(ctx):
         Writer side: every conditional spec write on the header writer (the three header fields are
         unconditional).  Reader side: spec reads under the has_acks flag."""
         out = []
-        for c in find_calls(f.node, opname, into_defs=False):
-            if not (c.args and spec_symbol(c.args[0])):
-                continue
-            from ..core import conditions
-            conds = [cond for cond in conditions(c, f.node)]
+        from ..core import conditions
+        recvs = {ap(c.func.value) for c in find_calls(f.node, opname, into_defs=False)
+                 if isinstance(c.func, ast.Attribute) and ap(c.func.value)}
+        recvs |= {st.path for st in stores(f.node, into_defs=False) if st.kind == "assign" and
+                  isinstance(st.value, ast.Call) and call_attr(st.value) in ("BufferWriter", "BufferReader")}
+        if ack_side == "writer":
+            # the header writer is the one whose buffer the function returns
+            returned = {ap(n) for r_ in walk(f.node) if isinstance(r_, ast.Return) and r_.value is not None
+                        for n in ast.walk(r_.value) if isinstance(n, (ast.Name, ast.Attribute)) and ap(n) in recvs}
+            recvs = returned or recvs
+        for c, fn, chain in flat_ops(repo, f, opname, recvs):
+            conds = [cond for site, sfn in chain + [(c, fn)] for cond in conditions(site, sfn.node)]
             atoms_ = set()
             branchy = False
             for cond in conds:
@@ -1119,7 +1168,7 @@ def r8(ctx):
                 for e, pol in atoms(cond.test, cond.polarity):
                     atoms_.add((re_sub_recv(src(e)), pol))
             if ack_side == "reader":
-                if has_path_fact(c, "has_acks", True, f.node):
+                if any(has_path_fact(site, "has_acks", True, sfn.node) for site, sfn in chain + [(c, fn)]):
                     out.append((c, atoms_))
             elif branchy:
                 out.append((c, atoms_))
